@@ -51,7 +51,7 @@ def scenario_layer(pid, quick_s=8, thorough_s=120):
 
     def run(tier, seed, run_native):
         budget = thorough_s if tier == "thorough" else quick_s
-        rc, out, err = run_native(["-m", "runtime.scenario", pid, str(budget), str(seed)], timeout=budget * 3 + 60)
+        rc, out, err = run_native(["-m", "runtime.scenario", pid, str(budget), str(seed)], timeout=budget * 12 + 300)
         try:
             res = _json.loads(out.strip().splitlines()[-1])
         except Exception:
@@ -85,7 +85,7 @@ def expr_layer(quick_budget=4, thorough_budget=5):
 
     def run(tier, seed, run_native):
         budget, limit = (thorough_budget, 400) if tier == "thorough" else (quick_budget, 60)
-        rc, out, err = run_native(["-m", "runtime.expr_enum", str(budget), str(limit)], timeout=limit * 2 + 60)
+        rc, out, err = run_native(["-m", "runtime.expr_enum", str(budget), str(limit)], timeout=limit * 12 + 300)
         try:
             res = _json.loads(out.strip().splitlines()[-1])
         except Exception:
@@ -111,7 +111,7 @@ def sig_layer(pid="C07", quick_s=20, thorough_s=400):
 
     def run(tier, seed, run_native):
         limit, mx = (thorough_s, 3) if tier == "thorough" else (quick_s, 2)
-        rc, out, err = run_native(["-m", "runtime.sig_enum", str(limit), str(seed), str(mx)], timeout=limit * 2 + 120)
+        rc, out, err = run_native(["-m", "runtime.sig_enum", str(limit), str(seed), str(mx)], timeout=limit * 12 + 300)
         try:
             res = _json.loads(out.strip().splitlines()[-1])
         except Exception:
@@ -137,7 +137,7 @@ def clone_layer(quick_s=15, thorough_s=300):
 
     def run(tier, seed, run_native):
         limit = thorough_s if tier == "thorough" else quick_s
-        rc, out, err = run_native(["-m", "runtime.clone_check", str(limit), str(seed)], timeout=limit * 2 + 120)
+        rc, out, err = run_native(["-m", "runtime.clone_check", str(limit), str(seed)], timeout=limit * 12 + 300)
         try:
             res = _json.loads(out.strip().splitlines()[-1])
         except Exception:
@@ -162,7 +162,7 @@ def render_layer(quick_s=15, thorough_s=300):
 
     def run(tier, seed, run_native):
         limit = thorough_s if tier == "thorough" else quick_s
-        rc, out, err = run_native(["-m", "runtime.render_check", str(limit), str(seed)], timeout=limit * 2 + 120)
+        rc, out, err = run_native(["-m", "runtime.render_check", str(limit), str(seed)], timeout=limit * 12 + 300)
         try:
             res = _json.loads(out.strip().splitlines()[-1])
         except Exception:
@@ -186,7 +186,7 @@ def diagram_layer(quick_s=8, thorough_s=200):
 
     def run(tier, seed, run_native):
         limit = thorough_s if tier == "thorough" else quick_s
-        rc, out, err = run_native(["-m", "runtime.diagram_check", str(limit), str(seed)], timeout=limit * 2 + 120)
+        rc, out, err = run_native(["-m", "runtime.diagram_check", str(limit), str(seed)], timeout=limit * 12 + 300)
         try:
             res = _json.loads(out.strip().splitlines()[-1])
         except Exception:
@@ -210,7 +210,7 @@ def definition_layer(quick_s=10, thorough_s=420):
     def run(tier, seed, run_native):
         limit = thorough_s if tier == "thorough" else quick_s
         extra = ["exhaustive"] if tier == "thorough" else []
-        rc, out, err = run_native(["-m", "runtime.definition_check", str(limit), str(seed)] + extra, timeout=limit * 2 + 120)
+        rc, out, err = run_native(["-m", "runtime.definition_check", str(limit), str(seed)] + extra, timeout=limit * 12 + 300)
         try:
             res = _json.loads(out.strip().splitlines()[-1])
         except Exception:
@@ -235,7 +235,7 @@ def api_layer(pid, quick_s=6, thorough_s=90):
 
     def run(tier, seed, run_native):
         budget = thorough_s if tier == "thorough" else quick_s
-        rc, out, err = run_native(["-m", "runtime.api_checks", pid, str(budget), str(seed)], timeout=budget * 3 + 60)
+        rc, out, err = run_native(["-m", "runtime.api_checks", pid, str(budget), str(seed)], timeout=budget * 12 + 300)
         try:
             res = _json.loads(out.strip().splitlines()[-1])
         except Exception:
@@ -262,6 +262,8 @@ def witnesses(pid, names):
             if rc == 1:
                 r["violations"].append({"name": f"witness:{nm}", "replay": os.path.join("/verif/witness", nm + ".py"),
                                         "difference": out.strip()[-300:]})
+            elif rc == 124:
+                r["error"] = f"timeout running {nm}"  # a loaded machine, not a verdict
             elif rc != 0:
                 r["violations"].append({"name": f"witness-crashed:{nm}", "replay": None, "difference": (err or out)[-300:]})
         return r
@@ -281,6 +283,8 @@ def probes(pid, names):
             if rc == 1:
                 r["violations"].append({"name": f"bounded:{pid}:probe:{nm}", "replay": os.path.join("/verif/probes", nm + ".py"),
                                         "difference": out.strip()[-300:]})
+            elif rc == 124:
+                r["error"] = f"timeout running {nm}"  # a loaded machine, not a verdict
             elif rc != 0:
                 r["violations"].append({"name": f"probe-crashed:{nm}", "replay": None, "difference": (err or out)[-300:]})
         return r
@@ -300,6 +304,8 @@ def fixed_witnesses(pid, names):
             if rc == 1:
                 r["violations"].append({"name": f"bounded:{pid}:repaired-defect-is-back:{nm}", "replay": os.path.join("/verif/witness", nm + ".py"),
                                         "difference": out.strip()[-300:]})
+            elif rc == 124:
+                r["error"] = f"timeout running {nm}"  # a loaded machine, not a verdict
             elif rc != 0:
                 r["violations"].append({"name": f"witness-crashed:{nm}", "replay": None, "difference": (err or out)[-300:]})
         return r
